@@ -249,6 +249,10 @@ def c02(case, lines, exact=False, idem_sessions=False):
 
 
 def c03(case, lines):
+    # programs whose resource checkers can fail at validation time (stream buf): a task whose own dependency check
+    # returns an error is re-executed whenever it is validated (C18), also right after the bottom-up build; every other
+    # execution there is still a failure
+    allow_err = case.meta.get("stream") == "buf"
     fails, items = [], parse(lines)
     for i, (k, s) in enumerate(items):
         if k != "sess" or not s.ops or s.ops[0].text != "reqknown": continue
@@ -256,7 +260,8 @@ def c03(case, lines):
         if any(o.result and o.result.startswith("abort") for o in items[i - 1][1].ops): continue
         outs = []
         for o in s.ops:
-            ex = [e for e in o.ev if e.startswith("execute_start")]
+            ex = [e for j, e in enumerate(o.ev) if e.startswith("execute_start") and not (
+                allow_err and j and o.ev[j - 1].startswith("check_resource_end") and " error(" in o.ev[j - 1])]
             if ex: fails.append(f"after bottom-up build (session {i - 1}): requiring known task {o.known} executed {ex}")
             outs.append(o.result[4:] if o.result and o.result.startswith("out ") else o.result)
         if i + 1 < len(items) and items[i + 1][0] == "clean":
